@@ -50,6 +50,7 @@ package geom
 //@ pred RE(a, b) = ufn(relateerr, error, a, b)
 
 //@ func relateMatchesAnyPattern
+//@   timeout 90
 //@   requires forall j :: 0 <= j && j < len(patterns) ==> PatOK(patterns[j])
 //@   ensures RE(a, b) != nil ==> result1 != nil
 //@   ensures RE(a, b) == nil ==> MatOK(RM(a, b))
